@@ -10,7 +10,7 @@ def run(ctx):
     P += semcheck.gen_programs(ctx.seed * 7919 + 2, n_loop, "negloop")
     P += common.family_small(ctx.pick(150, 2500), ctx.seed)
     common.sem_check(ctx, P, variants=lambda p: [("default", {"text": progs.render(p)})],
-                     level="model_checking")
+                     level="exploration")
 
 
 def replay(ctx, path):
